@@ -216,9 +216,13 @@ func genFib(g *common.Gen, r *common.Rand) {
 		case x < 35:
 			g.Op("adv %d %s", w, genAdv(r, n))
 			g.Stat("adv")
-		case x < 50:
+		case x < 45:
 			g.Op("ping %d %d %d", w, common.Pick(r, faces), r.Intn(2))
 			g.Stat("ping")
+		case x < 51:
+			// the neighbour re-dials (possibly another face) and announces a newer advertisement in the same Sync Interest
+			g.Op("pingnew %d %d %d", w, common.Pick(r, faces), r.Intn(2))
+			g.Stat("pingnew")
 		case x < 55:
 			g.Op("dead %d", w)
 			g.Stat("dead")
@@ -233,6 +237,22 @@ func genFib(g *common.Gen, r *common.Rand) {
 		case x < 62:
 			g.Op("advrace %d %s", w, genAdv(r, n))
 			g.Stat("advrace")
+		case x < 68:
+			// a transient forwarder failure on the first registration of op 1, tables change again (op 2) before the retry
+			var a, b string
+			switch r.Intn(4) {
+			case 0:
+				a, b = fmt.Sprintf("adv %d %s", w, genAdv(r, n)), fmt.Sprintf("adv %d %s", w, genAdv(r, n))
+			case 1:
+				a, b = fmt.Sprintf("ping %d %d 1", w, common.Pick(r, faces)), fmt.Sprintf("ping %d %d 1", w, common.Pick(r, faces))
+			case 2:
+				xr, id := r.Range(1, n-1), 100+r.Intn(numApp)
+				a, b = fmt.Sprintf("papply %d 0 %d -", xr, id), fmt.Sprintf("papply %d 0 - %d", xr, id)
+			default:
+				a, b = fmt.Sprintf("papply %d 0 %s -", r.Range(1, n-1), genIds(r, n, 2)), fmt.Sprintf("adv %d %s", w, genAdv(r, n))
+			}
+			g.Op("retry %s / %s", a, b)
+			g.Stat("retry")
 		case x < 92:
 			reset := 0
 			if r.Chance(1, 6) {
@@ -332,6 +352,8 @@ var (
 	uni  *universe
 	pend map[int][]dvsim.Pending // log histories: outstanding Interests per peer
 	pfxSeq uint64                // installer histories: sequence numbers of delivered prefix Data
+	advCnt map[int]uint64        // installer histories: advertisement number of every remote router
+	advWire map[int][]byte       // ... and its current advertisement (what a fetch is answered with)
 )
 
 func parseAdv(s string) *tlv.Advertisement {
@@ -464,21 +486,82 @@ func prefixIds(r *table.PrefixTableRouter) string {
 
 func execFib(f []string) string {
 	nd := sim.Nodes[0]
+	switch f[0] {
+	case "retry":
+		// a transient failure of the forwarder hits the first route registration of the first op; the
+		// second op changes the tables again before the management thread has retried it
+		var ops [][]string
+		cur := []string{}
+		for _, t := range f[1:] {
+			if t == "/" {
+				ops = append(ops, cur)
+				cur = []string{}
+			} else {
+				cur = append(cur, t)
+			}
+		}
+		ops = append(ops, cur)
+		nd.Eng.ArmFailOnce(func(c dvsim.Cmd) bool {
+			return c.Module == "rib" && c.Cmd == "register" && !isNeighborRoute(nd.Cfg, c.Name)
+		})
+		for _, o := range ops {
+			switch {
+			case len(o) == 0:
+			case o[0] == "ping" || o[0] == "pingnew" || o[0] == "adv" || o[0] == "papply":
+				execFibInner(o)
+			}
+		}
+		nd.Eng.ArmFailOnce(nil)
+		sim.SettleIdle()
+		return dumpFib()
+	}
+	if r := execFibInner(f); r == "skip" {
+		return "skip"
+	}
+	sim.SettleIdle()
+	return dumpFib()
+}
+
+// execFibInner performs one installer op without reporting; "skip" if it does not apply.
+func execFibInner(f []string) string {
+	nd := sim.Nodes[0]
 	nt := nd.R.VerifNeighbors()
 	wOf := func(s string) (int, bool) {
 		w := common.Atoi(s)
 		return w, w >= 1 && w < uni.n
 	}
+	syncW := func(w int, face uint64, act bool) {
+		if advCnt[w] == 0 {
+			advCnt[w] = 1
+		}
+		for _, p := range sim.SyncInterest(0, uni.rName[w], face, act, advCnt[w]) {
+			if wire := advWire[w]; wire != nil {
+				sim.ReplyAdvert(p, wire)
+			}
+		}
+	}
 	switch f[0] {
-	case "ping":
+	case "ping", "pingnew":
+		if len(f) != 4 {
+			return "skip"
+		}
 		w, ok := wOf(f[1])
 		face, act := common.Atou(f[2]), f[3] == "1"
 		if !ok || face == 0 {
 			return "skip"
 		}
-		sim.SyncInterest(0, uni.rName[w], face, act, 1) // real advertSyncOnInterest
-		return dumpFib()
-	case "adv", "advrace":
+		if advCnt[w] == 0 {
+			advCnt[w] = 1
+		}
+		if f[0] == "pingnew" {
+			advCnt[w]++ // the neighbour announces a newer advertisement (and may have re-dialled)
+		}
+		syncW(w, face, act)
+		return ""
+	case "adv":
+		if len(f) != 3 {
+			return "skip"
+		}
 		w, ok := wOf(f[1])
 		if !ok {
 			return "skip"
@@ -487,19 +570,33 @@ func execFib(f []string) string {
 		if ns == nil {
 			return "skip"
 		}
-		ns.Advert = wireAdv(parseAdv(f[2])) // advertDataHandler
-		if f[0] == "advrace" {
-			sim.Dead(0, uni.rName[w]) // the dead check wins the race for the router mutex
+		if advCnt[w] == 0 {
+			advCnt[w] = 1
 		}
-		nd.R.VerifRibUpdate(ns) // go dv.ribUpdate(ns)
+		advCnt[w]++
+		advWire[w] = parseAdv(f[2]).Encode().Join()
+		syncW(w, ns.VerifFaceId(), true) // announced on the face the neighbour is known on
+		return ""
+	case "advrace":
+		w, ok := wOf(f[1])
+		if !ok {
+			return "skip"
+		}
+		ns := nt.Get(uni.rName[w])
+		if ns == nil {
+			return "skip"
+		}
+		ns.Advert = wireAdv(parseAdv(f[2])) // advertDataHandler stored it
+		sim.Dead(0, uni.rName[w])           // the dead check wins the race for the router mutex
+		nd.R.VerifRibUpdate(ns)             // the pending go dv.ribUpdate(ns)
 		sim.Settle()
-		return dumpFib()
+		return ""
 	case "dead":
 		w, ok := wOf(f[1])
 		if !ok || !sim.Dead(0, uni.rName[w]) {
 			return "skip"
 		}
-		return dumpFib()
+		return ""
 	case "sweep":
 		var names []enc.Name
 		for _, ws := range strings.Split(f[1], ",") {
@@ -512,7 +609,7 @@ func execFib(f []string) string {
 		if sim.DeadMany(0, names) == 0 {
 			return "skip"
 		}
-		return dumpFib()
+		return ""
 	case "papply":
 		x := common.Atoi(f[1])
 		if x < 0 || x >= uni.n {
@@ -543,11 +640,11 @@ func execFib(f []string) string {
 		}
 		nd.R.VerifProcessPrefixData(data, nd.R.VerifPfx().GetRouter(uni.rName[x]))
 		sim.Settle()
-		return dumpFib()
+		return ""
 	case "fib":
 		nd.R.VerifFibUpdate()
 		sim.Settle()
-		return dumpFib()
+		return ""
 	}
 	return "bad-op"
 }
@@ -733,6 +830,7 @@ func exec(op string) string {
 	if f[0] == "new" {
 		sim.Close()
 		sim, uni, pend = nil, nil, map[int][]dvsim.Pending{}
+		advCnt, advWire = map[int]uint64{}, map[int][]byte{}
 		if len(f) != 3 {
 			return "bad-op"
 		}
@@ -767,7 +865,7 @@ func exec(op string) string {
 	}
 	if kind == "fib" {
 		switch f[0] {
-		case "ping", "adv", "advrace", "dead", "sweep", "papply", "fib":
+		case "ping", "pingnew", "retry", "adv", "advrace", "dead", "sweep", "papply", "fib":
 			return execFib(f)
 		}
 		return "skip"
